@@ -150,3 +150,108 @@ Proof.
     + rewrite (He eq_refl). discriminate.
     + destruct (Hc ltac:(discriminate)) as [ny [nx [d [rn [E _]]]]]. rewrite E. discriminate.
 Qed.
+
+(* ---------------------------------------------------------------- minimum Feret diameter, end to end *)
+From Centro Require Import Spec.FeretLower Proofs.FeretMinC13 Proofs.FeretConeC13 Proofs.HullAreaVecC13Proofs Model.HullAreaC13 Model.HullAreaVecC13.
+
+(* the minimum returned by the sweep on the label's hull is - cross-multiplied - a squared width that the label's
+   own pixel set S attains in a direction normal to a hull edge, and no strip normal to a hull edge that contains S
+   is narrower; no per-run certificate *)
+Theorem feret_min_end_to_end ijv indexes r :
+  NoDup indexes -> (r < length indexes)%nat -> nonneg_rows ijv ->
+  let l := nth r indexes 0 in
+  let S := pts_of ijv l in
+  let V := own_hull ijv l in
+  (3 <= length V)%nat ->
+  exists mx mq bn bd,
+    nth r (feret_rows (fst (convex_hull_ijv ijv indexes))) (sweep []) = Some (mx, mq) /\
+    0 < snd mq /\ 0 < bd /\ fst mq * bd = bn * snd mq /\
+    width_attained S bn bd /\ width_lower (edge_direction V) S bn bd.
+Proof.
+  intros ND Hr Hnn l S V L3.
+  destruct (feret_end_to_end ijv indexes r ND Hr Hnn) as [HS [mx [mq (E & _ & _ & Big)]]]. fold l S V in HS, Big.
+  destruct (Big L3) as [bq (Eb & Pm & Pb & Eq)].
+  destruct (feret_min_edge_flush S V HS L3) as [bn [bd (Eb' & Bd & At & Low)]].
+  rewrite Eb in Eb'. injection Eb' as ->. cbn [fst snd] in *.
+  exists mx, mq, bn, bd. repeat split; try assumption.
+Qed.
+
+(* the same with the lower bound over ALL directions: the minimum Feret diameter returned by the sweep is the
+   minimum width of the label's own pixel set, min over u <> 0 of (max - min of <u, s>)^2 / |u|^2 *)
+Theorem feret_min_end_to_end_all ijv indexes r :
+  NoDup indexes -> (r < length indexes)%nat -> nonneg_rows ijv ->
+  let l := nth r indexes 0 in
+  let S := pts_of ijv l in
+  let V := own_hull ijv l in
+  (3 <= length V)%nat ->
+  exists mx mq bn bd,
+    nth r (feret_rows (fst (convex_hull_ijv ijv indexes))) (sweep []) = Some (mx, mq) /\
+    0 < snd mq /\ 0 < bd /\ fst mq * bd = bn * snd mq /\
+    width_attained S bn bd /\ width_lower (fun u => u <> (0, 0)) S bn bd.
+Proof.
+  intros ND Hr Hnn l S V L3.
+  destruct (feret_end_to_end ijv indexes r ND Hr Hnn) as [HS [mx [mq (E & _ & _ & Big)]]]. fold l S V in HS, Big.
+  destruct (Big L3) as [bq (Eb & Pm & Pb & Eq)].
+  destruct (feret_min_all_directions S V HS L3) as [bn [bd (Eb' & Bd & At & Low)]].
+  rewrite Eb in Eb'. injection Eb' as ->. cbn [fst snd] in *.
+  exists mx, mq, bn, bd. repeat split; try assumption.
+Qed.
+
+(* one- and two-vertex hulls (single pixels, lines): the sweep returns 0 / 1 and the width of the pixel set is 0 *)
+Theorem feret_min_end_to_end_degenerate ijv indexes r :
+  NoDup indexes -> (r < length indexes)%nat -> nonneg_rows ijv ->
+  let l := nth r indexes 0 in
+  let S := pts_of ijv l in
+  let V := own_hull ijv l in
+  (1 <= length V <= 2)%nat ->
+  exists mx,
+    nth r (feret_rows (fst (convex_hull_ijv ijv indexes))) (sweep []) = Some (mx, (0, 1)) /\
+    width_attained S 0 1 /\ width_lower (fun u => u <> (0, 0)) S 0 1.
+Proof.
+  intros ND Hr Hnn l S V LV.
+  destruct (feret_end_to_end ijv indexes r ND Hr Hnn) as [HS [mx [mq (E & _ & Small & _)]]]. fold l S V in HS, Small.
+  rewrite (Small ltac:(lia)) in E. exists mx. split; [exact E|]. exact (feret_min_degenerate S V HS LV).
+Qed.
+
+(* a pixel line next to another object: two hull vertices *)
+Example feret_min_degenerate_example :
+  let ijv := [((4, 1), 3); ((4, 2), 3); ((4, 3), 3); ((0, 0), 5); ((5, 2), 5)] in
+  NoDup [3; 5] /\ nonneg_rows ijv /\ (1 <= length (own_hull ijv 3) <= 2)%nat /\
+  nth 0 (feret_rows (fst (convex_hull_ijv ijv [3; 5]))) (sweep []) = Some (4, (0, 1)).
+Proof.
+  cbv zeta. split; [repeat constructor; cbn; intuition discriminate|].
+  split; [intros x Hx; cbn in Hx; intuition (subst; cbn; lia)|].
+  split; [vm_compute; lia|]. vm_compute. reflexivity.
+Qed.
+
+(* the hypotheses of the planar cone lemma (FeretConeC13.cone_span) *)
+Example cone_span_example :
+  let c1 := (1, 0) in let c2 := (0, 1) in let c3 := (1, 1) in let c4 := (2, -1) in let u := (3, 2) in
+  FeretLower.crossv c1 c2 <> 0 /\ u <> (0, 0) /\ 0 <= FeretLower.dotv c1 u /\ 0 <= FeretLower.dotv c2 u /\
+  0 <= FeretLower.dotv c3 u /\ 0 <= FeretLower.dotv c4 u.
+Proof. cbv. repeat split; try discriminate. Qed.
+
+(* the hypotheses on a 3 x 2 block next to another object: the hull is the four corners, the minimum squared width
+   is 1 = 4 / 4 (the short side), attained normal to a long edge *)
+Example feret_min_all_example :
+  let ijv := [((0, 0), 3); ((0, 1), 3); ((1, 0), 3); ((1, 1), 3); ((2, 0), 3); ((2, 1), 3); ((7, 7), 5)] in
+  NoDup [5; 3] /\ nonneg_rows ijv /\ (3 <= length (own_hull ijv 3))%nat /\
+  bf_min (own_hull ijv 3) = Some (4, 4) /\
+  nth 1 (feret_rows (fst (convex_hull_ijv ijv [5; 3]))) (sweep []) = Some (5, (4, 4)).
+Proof.
+  cbv zeta. split; [repeat constructor; cbn; intuition discriminate|].
+  split; [intros x Hx; cbn in Hx; intuition (subst; cbn; lia)|].
+  split; [vm_compute; lia|]. split; vm_compute; reflexivity.
+Qed.
+
+(* calculate_convex_hull_areas as written on the rows of C02's convex_hull_ijv *)
+Theorem hull_areas_vec_end_to_end ijv indexes res :
+  NoDup indexes -> (forall j, In j indexes -> 0 <= j) -> nonneg_rows ijv ->
+  hull_areas_vec (map fst (fst (convex_hull_ijv ijv indexes))) (map snd (fst (convex_hull_ijv ijv indexes))) = Some res ->
+  res = hull_areas_rows (fst (convex_hull_ijv ijv indexes)).
+Proof.
+  intros ND NN Hnn H. unfold hull_areas_rows. rewrite <- map_map.
+  apply (hull_areas_vec_correct (map fst (fst (convex_hull_ijv ijv indexes))) (map snd (fst (convex_hull_ijv ijv indexes))) res);
+    [rewrite rows_labels by assumption; exact ND|rewrite rows_labels by assumption; exact NN
+    |rewrite !map_length; reflexivity|exact H].
+Qed.
